@@ -341,7 +341,8 @@ def evaluate__string_type_and_function(self: XPathConstructor, context: ta.Conte
             return self.string_value(context.item)
         return self.string_value(self.get_argument(context))
     else:
-        item = self.get_argument(context)
+        # the constructor function casts the atomized argument (the typed value of a node)
+        item = self.data_value(self.get_argument(context))
         return [] if item is None else self.string_value(item)
 
 
